@@ -91,7 +91,7 @@ theorem arrive_inv {s : State} (h : Inv s) {ai : Nat} {a0 : Arch} {e : Ent}
       · exact Nat.le_refl _
       · next hne => exact h.cstLeW ha0 (in_range_of_push hcs0 hk hne)
     · exact h.cstLe x a' k c hx' hk
-  · intro j J x a' i1 e1 c L hj hx h1 hreq hcc hcm hp hl
+  · intro j J x a' i1 e1 c L hj hx h1 hreq hck hcc hcm hp hl
     rw [hjobs] at hj
     rw [hpend] at hp
     have hLw := h.lastLt j J L hj hl
@@ -100,7 +100,8 @@ theorem arrive_inv {s : State} (h : Inv s) {ai : Nat} {a0 : Arch} {e : Ent}
       rw [if_neg hne] at hp
       have hreq' : J.reqOk b = true := by simpa only [Job.reqOk, hbm] using hreq
       rw [hbm] at hcm
-      have hold := h.pend j J x b i1 e1 c L hj hb hb1 hreq' hcc hcm hp hl
+      rw [hbcs] at hck
+      have hold := h.pend j J x b i1 e1 c L hj hb hb1 hreq' hck hcc hcm hp hl
       rcases harch x a' hx with ⟨rfl, rfl⟩ | ⟨_, hx'⟩
       · have : b = a0 := by rw [ha0] at hb; exact (Option.some.inj hb).symm
         subst this
@@ -228,7 +229,7 @@ theorem depart_inv {s : State} (h : Inv s) {ai i : Nat} {a0 : Arch} {e : Ent}
       · exact Nat.le_refl _
       · exact h.cstLeW ha0 (by omega)
     · exact h.cstLe x a' k c hx' hk
-  · intro j J x a' k y c L hj hx h1 hreq hcc hcm hp hl
+  · intro j J x a' k y c L hj hx h1 hreq hck hcc hcm hp hl
     rw [hjobs] at hj
     rw [hpend] at hp
     have hLw := h.lastLt j J L hj hl
@@ -237,7 +238,7 @@ theorem depart_inv {s : State} (h : Inv s) {ai i : Nat} {a0 : Arch} {e : Ent}
       by_cases hforced : i ≠ a0.ents.length - 1 ∧ a0.ents[a0.ents.length - 1]? = some y
       · exact absurd (h.uniq x a' k ai a0 _ y hx' h1 ha0 hforced.2).1 hne
       · rw [if_neg hforced] at hp
-        exact h.pend j J x a' k y c L hj hx' h1 hreq hcc hcm hp hl
+        exact h.pend j J x a' k y c L hj hx' h1 hreq hck hcc hcm hp hl
     · -- the relocated row
       rw [spCs, spC]; simp only [true_or, if_true]; exact hLw
     · -- a row that stayed
@@ -248,7 +249,8 @@ theorem depart_inv {s : State} (h : Inv s) {ai i : Nat} {a0 : Arch} {e : Ent}
       rw [if_neg hforced] at hp
       rw [spMask] at hcm
       have hreq' : J.reqOk a0 = true := by simpa only [Job.reqOk, spMask] using hreq
-      have hold' := h.pend j J x a0 k y c L hj ha0 hk' hreq' hcc hcm hp hl
+      rw [spCs] at hck
+      have hold' := h.pend j J x a0 k y c L hj ha0 hk' hreq' hck hcc hcm hp hl
       rw [spCs, spC]
       split
       · exact hLw
